@@ -15,8 +15,8 @@ import hypothesis
 from hypothesis import HealthCheck, Phase, given, settings
 
 VERIF = os.path.dirname(os.path.dirname(os.path.abspath(__file__)))
-EVIDENCE_DIR = os.path.join(VERIF, "evidence")
-REPLAY_DIR = os.path.join(VERIF, "replays")
+EVIDENCE_DIR = os.environ.get("VERIF_EVIDENCE_DIR") or os.path.join(VERIF, "evidence")
+REPLAY_DIR = os.environ.get("VERIF_REPLAY_DIR") or os.path.join(VERIF, "replays")
 KNOWN_PATH = os.path.join(VERIF, "known_findings.json")
 NSHARDS = int(os.environ.get("VERIF_SHARDS", "16"))
 
@@ -173,6 +173,21 @@ class Ctx:
             raise HarnessError(f"hypothesis error in {label}: {exc!r}") from exc
         except Exception as exc:  # noqa: BLE001
             self.failures.append(unexpected_exception(exc, label))
+            return False
+
+    def run_plain(self, fn, name="plain"):
+        """Run a deterministic (enumerating) part of a check; same failure bookkeeping as run_given."""
+        self._last_failure = None
+        try:
+            fn()
+            return True
+        except CheckFailure:
+            self.failures.append(self._last_failure)
+            return False
+        except HarnessError:
+            raise
+        except Exception as exc:  # noqa: BLE001
+            self.failures.append(unexpected_exception(exc, name))
             return False
 
     def guard(self, fn, signature_prefix, payload):
